@@ -9,6 +9,8 @@
 -/
 import YalafiVerif.Model.Expander
 import YalafiVerif.Proofs.InlineShape
+import YalafiVerif.Proofs.PlainMath
+import YalafiVerif.Generated.Init
 namespace Yalafi
 
 theorem C10_rot_length (l : List Str) : (rotL l).length = l.length := by
@@ -70,5 +72,46 @@ theorem C10_inline_shape_tokens (T : PTables) (ts : List Tok) (t0 tl : Tok) (r0 
       ++ (match partPunct T ts with | some c => [(Kind.text, [c])] | none => [])
       ++ (if tl.kind = .mathSpace then [(Kind.space, [' '])] else []) :=
   ⟨inlineShape_fix_pos T ts t0 tl r0, inlineShape_kinds T ts t0 tl r0⟩
+
+/-- **inline formulas become rotating placeholders**, end to end on the filter model: for documents
+    of inert text and simple inline formulas `$body$` (body characters that the maths parser turns
+    into maths tokens one by one; blanks inside the formula allowed; formulas do not touch), the
+    k-th formula is replaced by the placeholder at index `k mod length` of the language's inline
+    collection followed by the formula's closing punctuation mark; every character of the
+    replacement maps to the first non-blank character of the formula body, every text character to
+    its own position; no unknowns, no diagnostics.  (`VisibleRepls`: no placeholder is blank —
+    otherwise blank-line removal could delete a line.) -/
+theorem C10_inline_math_e2e (T : PTables) (o : Options) (fs : FS) (thresh : Nat)
+    (segs : List PlainMath.Seg) (fuel : Nat) (st1 : PState) (rot : Rot) (repls : List Str)
+    (hdefs : o.defs = []) (hextr : o.extr = []) (hrepl : o.hasRepl = false) (hunkn : o.unkn = false)
+    (hinit : initParser T fuel o (initialState T o false fs) = .ok ((), st1))
+    (hok : PlainMath.SegsOk T st1 segs)
+    (hrot : rotOf st1 (curSettings st1) = some rot) (hrepls : rot.inl = repls)
+    (hne : repls ≠ []) (hvis : PlainMath.VisibleRepls repls)
+    (hls : (settingsOf T (curSettings st1)).isSome = true)
+    (hf : (PlainMath.render segs).length + 2 ≤ fuel) :
+    ∃ r, tex2txt T fuel (PlainMath.render segs) o false thresh fs = .ok r ∧
+      r.txt = (PlainMath.refMath T repls 0 0 segs).1 ∧
+      r.pos = (PlainMath.refMath T repls 0 0 segs).2.map (· + 1) ∧
+      r.unknowns = [] ∧ r.diags = st1.diags :=
+  PlainMath.tex2txt_inline_math T o fs thresh segs fuel st1 rot repls hdefs hextr hrepl hunkn hinit hok hrot hrepls
+    hne hvis hls hf
+
+/-- the inline collection of the default language after initialisation of the CURRENT code -/
+def C10_replsCurrent : List Str :=
+  ((rotOf Generated.stDefault (curSettings Generated.stDefault)).map (·.inl)).getD []
+
+/-- the hypotheses about the initialised parser hold for the tables translated from /repo -/
+theorem C10_current_facts :
+    (rotOf Generated.stDefault (curSettings Generated.stDefault)).isSome = true ∧
+    C10_replsCurrent ≠ [] ∧ C10_replsCurrent.length = 6 ∧
+    (settingsOf Generated.theTables (curSettings Generated.stDefault)).isSome = true := by
+  decide +kernel
+
+/-- a concrete document satisfies the side conditions on the real tables -/
+theorem C10_example_current :
+    PlainMath.segsOk Generated.theTables Generated.stDefault
+      [.txt "Let ".toList, .math "x + 1".toList, .txt " and ".toList, .math " y, ".toList, .txt " be ".toList, .math "z".toList, .txt ".".toList] = true := by
+  decide +kernel
 
 end Yalafi
